@@ -359,7 +359,8 @@ def _run_check(mod, modname, prop_id, tier, seed, jobs, scratch, t0,
     confirmed = False
     lines = []
     _worker_init(modname, scratch)
-    replay_dir = os.path.join(VERIF, "replays", prop_id)
+    replay_dir = os.path.join(os.environ.get(
+        "VERIF_REPLAY_DIR", os.path.join(VERIF, "replays")), prop_id)
     for sig in sorted(by_sig):
         rec = by_sig[sig][0]         # units are simplest-first
         with _Quiet():
@@ -438,7 +439,10 @@ def _run_check(mod, modname, prop_id, tier, seed, jobs, scratch, t0,
         "wall_s": round(wall, 3),
         "violations": len(by_sig),
     }
-    evdir = os.path.join(VERIF, "evidence")
+    # (developer override used when running against a scratch clone with a
+    # seeded change; MANIFEST commands never set it)
+    evdir = os.environ.get("VERIF_EVIDENCE_DIR",
+                           os.path.join(VERIF, "evidence"))
     os.makedirs(evdir, exist_ok=True)
     evpath = os.path.join(evdir, prop_id + ".json")
     with open(evpath, "w") as f:
